@@ -49,8 +49,8 @@ def lengths_for(info, tier, kind='raw'):
         return []
     import collections
     if tier == 'quick':
-        ls = {min(raws), collections.Counter(comps).most_common(1)[0][0]}
-        return sorted(ls)
+        # one length per module: the most frequent compact length of its doctest-valid numbers
+        return [collections.Counter(comps).most_common(1)[0][0]]
     lo, hi = min(raws + comps), max(raws + comps)
     return list(range(max(0, lo - 1), hi + 2))
 
@@ -250,8 +250,9 @@ class Report:
             cov['states'] = max(1, cov['states'])
             cov['transitions'] = max(1, cov['transitions'])
             cov['note'] = 'no symbolic paths were completed in this run'
-        os.makedirs(os.path.join(VERIF, 'evidence'), exist_ok=True)
-        with open(os.path.join(VERIF, 'evidence', self.prop + '.json'), 'w', encoding='utf-8') as f:
+        evdir = os.environ.get('VERIF_EVIDENCE_DIR') or os.path.join(VERIF, 'evidence')
+        os.makedirs(evdir, exist_ok=True)
+        with open(os.path.join(evdir, self.prop + '.json'), 'w', encoding='utf-8') as f:
             json.dump(ev, f, indent=1, default=str)
         c = self.counters
         print('%s %s: units=%d paths=%d obligations=%d discharged=%d unknown=%d divergences=%d unsupported_paths=%d cut_paths=%d limits=%d errors=%d replayed=%d known=%d new=%d wall=%.0fs solver=%.0fs' % (
